@@ -404,7 +404,7 @@ def configs(tier):
              ("spin_fermion", 3), ("spin_two_fermions", 2), ("boson_ladder", 2), ("floquet_2x2", 2)]
     thorough = [("anharmonic3", 4), ("anharmonic4", 3), ("displaced", 4), ("kerr_drive", 3), ("two_bosons", 3), ("rabi", 4), ("jc_detuned", 3),
                 ("fermion_hop2", 4), ("fermion_pair3", 3), ("fermion_interaction", 3), ("holstein", 3), ("ladder_drive", 3),
-                ("mask_two_photon", 3), ("mask_one_photon", 3), ("matrix_2x2", 3), ("matrix_1block", 3),
+                ("mask_two_photon", 3), ("mask_one_photon", 2), ("matrix_2x2", 3), ("matrix_1block", 3),
                 ("spin_fermion", 4), ("spin_two_fermions", 3), ("boson_ladder", 3), ("floquet_2x2", 3)]
     for name, mo in quick if tier == "quick" else thorough:
         cfgs.append(dict(model=name, max_order=mo, _timeout_s=300 if tier == "quick" else 1500))
